@@ -567,7 +567,15 @@ def check(ctx):
                 if isinstance(x_, ast.AugAssign) and isinstance(x_.op, ast.Add) and isinstance(x_.target, ast.Attribute) and isinstance(x_.target.value, ast.Name) \
                         and x_.target.value.id == 'self' and x_.target.attr != 'number_of_bits':
                     spill.add(x_.target.attr)
-        mentioned = {y_.attr for y_ in walk_no_nested(nb) if isinstance(y_, ast.Attribute) and isinstance(y_.value, ast.Name) and y_.value.id == 'self'}
+        mentioned = set()
+        todo8 = [nb]
+        for g8 in todo8:            # number_of_bytes and the methods of the encoder it is computed through (total_number_of_bits())
+            for y_ in walk_no_nested(g8):
+                if isinstance(y_, ast.Attribute) and isinstance(y_.value, ast.Name) and y_.value.id == 'self':
+                    mentioned.add(y_.attr)
+                    r8 = ecls.find_method(y_.attr)
+                    if r8 is not None and r8[1] not in todo8 and len(todo8) < 6:
+                        todo8.append(r8[1])
         ok8 = not spill or bool(spill & mentioned)
         ctx.instance('C07.R8', '%s.Encoder.number_of_bytes reads %s; written bits are also kept in %s' % (codec8, sorted(mentioned), sorted(spill) or 'nothing else'),
                      'ok' if ok8 else 'VIOLATION', node=nb, file=RELS[codec8])
